@@ -363,44 +363,49 @@ fn spaces(tier: Tier) -> Vec<Space> {
 
     // S2: attaching glyphs x mark structure
     {
-        let marks = marks.clone();
         let quick = tier == Tier::Quick;
-        let modes: Vec<(bool, bool)> = tier.pick(MODES3.to_vec(), MODES4.to_vec());
-        let layouts = tier.pick(vec![Layout::Two], vec![Layout::Two, Layout::ThreeMid]);
-        // b: absent anchors / top / top+bottom ; quick: top only
-        let b_sets: Vec<&'static [&'static str]> = if quick { vec![&["top"]] } else { vec![&[], &["top"], &["top", "bottom"]] };
-        let grave: Vec<Vec<&'static str>> = if quick { vec![vec!["_top", "top"]] } else { marks.clone() };
-        // composite variants used here: none / no own anchors, constant offset / own top
-        let comp_kinds: Vec<usize> = if quick { vec![0] } else { vec![0, 1, 3] };
-        let comps = comp_kinds.len();
-        let (nmodes, nl, nb, ng) = (modes.len(), layouts.len(), b_sets.len(), grave.len());
-        v.push(Space {
-            name: "attaching-x-mark",
-            what: format!(
-                "a: 4 subsets of top,bottom; b: {nb} sets; f_i: 4 subsets of top_1,top_2; acutecomb: {nm} subsets; gravecomb: {ng} sets; x (non-mark letter): absent, [_top], [_top,top]; composite aacute: {comps} variants; {nmodes} modes; layouts {:?}",
-                layouts.iter().map(|l| l.name()).collect::<Vec<_>>()
-            ),
-            radices: vec![4, nb, 4, nm, ng, 3, comps, nmodes, nl],
-            build: Box::new(move |d| {
-                let layout = layouts[d[8]];
-                let n = layout.masters();
-                let (explicit, propagate) = modes[d[7]];
-                let mut glyphs = vec![
-                    gspec("a", BASE_SETS[d[0]], n),
-                    gspec("b", b_sets[d[1]], n),
-                    gspec("f_i", LIG_SETS[d[2]], n),
-                    gspec("acutecomb", &marks[d[3]], n),
-                    gspec("gravecomb", &grave[d[4]], n),
-                ];
-                if let Some(x) = X_SETS[d[5]] {
-                    glyphs.push(gspec("x", x, n));
-                }
-                if let Some(c) = composite(comp_kinds[d[6]], n) {
-                    glyphs.push(c);
-                }
-                Spec { space: "attaching-x-mark".into(), layout, explicit, propagate, glyphs }
-            }),
-        });
+        // (layout, composite variants): quick one block; thorough two masters with composites
+        // (none / no own anchors, constant offset / own top) plus three masters without composite
+        let blocks: Vec<(Layout, Vec<usize>)> = if quick {
+            vec![(Layout::Two, vec![0])]
+        } else {
+            vec![(Layout::Two, vec![0, 1, 3]), (Layout::ThreeMid, vec![0])]
+        };
+        for (layout, comp_kinds) in blocks {
+            let marks = marks.clone();
+            let modes: Vec<(bool, bool)> = tier.pick(MODES3.to_vec(), MODES4.to_vec());
+            // b: absent anchors / top / top+bottom ; quick: top only
+            let b_sets: Vec<&'static [&'static str]> = if quick { vec![&["top"]] } else { vec![&[], &["top"], &["top", "bottom"]] };
+            let grave: Vec<Vec<&'static str>> = if quick { vec![vec!["_top", "top"]] } else { marks.clone() };
+            let comps = comp_kinds.len();
+            let (nmodes, nb, ng) = (modes.len(), b_sets.len(), grave.len());
+            v.push(Space {
+                name: "attaching-x-mark",
+                what: format!(
+                    "layout {}: a: 4 subsets of top,bottom; b: {nb} sets; f_i: 4 subsets of top_1,top_2; acutecomb: {nm} subsets; gravecomb: {ng} sets; x (non-mark letter): absent, [_top], [_top,top]; composite aacute variants {comp_kinds:?}; {nmodes} modes",
+                    layout.name()
+                ),
+                radices: vec![4, nb, 4, nm, ng, 3, comps, nmodes],
+                build: Box::new(move |d| {
+                    let n = layout.masters();
+                    let (explicit, propagate) = modes[d[7]];
+                    let mut glyphs = vec![
+                        gspec("a", BASE_SETS[d[0]], n),
+                        gspec("b", b_sets[d[1]], n),
+                        gspec("f_i", LIG_SETS[d[2]], n),
+                        gspec("acutecomb", &marks[d[3]], n),
+                        gspec("gravecomb", &grave[d[4]], n),
+                    ];
+                    if let Some(x) = X_SETS[d[5]] {
+                        glyphs.push(gspec("x", x, n));
+                    }
+                    if let Some(c) = composite(comp_kinds[d[6]], n) {
+                        glyphs.push(c);
+                    }
+                    Spec { space: "attaching-x-mark".into(), layout, explicit, propagate, glyphs }
+                }),
+            });
+        }
     }
 
     // S3: coordinates: all assignments of the alphabet to two anchors at every master
@@ -878,6 +883,23 @@ fn near(a: Pos, b: Pos, tol: f64) -> bool {
     (a.0 - b.0).abs() <= tol && (a.1 - b.1).abs() <= tol
 }
 
+/// In process by default; with `C10_USE_BINARY=1` through the unmodified product binary (used to
+/// confirm a finding against the shipped executable).
+fn compile(path: &std::path::Path, opts: &Opts, dir: &std::path::Path) -> Result<Vec<u8>, fcx::Failure> {
+    if std::env::var("C10_USE_BINARY").as_deref() != Ok("1") {
+        return fcx::compile(path, opts, None);
+    }
+    let out = dir.join("out.ttf");
+    let mut cmd = vcore::fontc_cmd(&vcore::fontc_bin(), None);
+    cmd.arg(path).arg("-o").arg(&out).arg("-b").arg(dir.join("build"));
+    cmd.arg(format!("--propagate-anchors={}", opts.propagate_anchors.unwrap_or(false)));
+    let r = vcore::run_proc(&mut cmd, 60_000, Some(8 << 30));
+    if r.code != Some(0) {
+        return Err(fcx::Failure::Error(format!("{}: {}", r.summary(), r.stderr.lines().last().unwrap_or(""))));
+    }
+    std::fs::read(&out).map_err(|e| fcx::Failure::Error(format!("no output: {e}")))
+}
+
 fn evaluate(d: &Design, propagate: bool) -> Eval {
     let mut ev = Eval { viol: vec![], machinery: vec![], stats: Stats::default(), summary: String::new() };
     let st = &mut ev.stats;
@@ -900,7 +922,7 @@ fn evaluate(d: &Design, propagate: bool) -> Eval {
         }
     };
     let opts = Opts { propagate_anchors: Some(propagate), ..Default::default() };
-    let bytes = match fcx::compile(&path, &opts, None) {
+    let bytes = match compile(&path, &opts, sc.path()) {
         Ok(b) => b,
         Err(f) => {
             st.build_failures = 1;
